@@ -490,8 +490,8 @@ func runC03(c *Ctx) {
 	}
 	// Mode T: concurrent mixes on one strategy
 	for _, lookup := range []bool{true, false} {
-		for _, progs := range [][]string{{"a", "b", "R"}, {"aR", "bR"}, {"a", "z", "2"}, {"aR", "1", "b"}} {
-			c.Explore(c03Concurrent(lookup, 2, progs), mc.Options{PreemptBound: c.Pick(2, 3)})
+		for _, progs := range [][]string{{"a", "b", "R"}, {"aR", "bR"}, {"a", "z", "2"}, {"aR", "1", "b"}, {"a", "a"}, {"a", "a", "b"}, {"z", "z"}, {"b", "b", "a"}, {"a", "aR"}} {
+			c.Explore(c03Concurrent(lookup, 2, progs), mc.Options{PreemptBound: c.Pick(3, 4)})
 		}
 	}
 }
